@@ -11,6 +11,11 @@ case, objective table `(f …)` recomputed by the harness with `raw_f`).
   energy witness) must produce exactly the model's state; every other component must satisfy `leafCheck` of its
   kind (`leaf_check_sound`); a component that ended with `Err` or a panic must at least satisfy `noNewValues`.
 
+A state that is used again for another instance (`(comp … (reinit …))`, `(rerun …)`): the snapshots around the
+components' `init` are compared with the init model (`initOpsOf`, `memRun`), and O is evaluated with the
+objective table of the NEW instance right after the `init`s and after every later step; the class names the
+memory that holds the stale value (`stalePlace`).
+
 Also the API histories with a tie-agnostic `best_individual` (any member with a minimal objective value is
 accepted as the answer; which one is returned is not part of the property).
 -/
@@ -110,6 +115,28 @@ def exactOps (name : String) (k : Nat) : List MemOp :=
   else if name == "SynthesisUpdate" then [.synthesis true, .synthesis false]
   else []
 
+/-- The `init` of a component, as far as C05 observes it (a component that is not listed has no `init`, or one
+that does not touch any individual). -/
+def initOpsOf (name : String) : List MemOp :=
+  if name == "PopulationEvaluator" then [.initEvals]
+  else if name == "BestIndividualUpdate" then [.initBest]
+  else if name == "ElitistArchiveUpdate" then [.initArchive]
+  else if name == "PersonalBestParticlesInit" then [.initPbest]
+  else if name == "GlobalBestParticleUpdate" then [.initGbest]
+  else if name == "ChemicalReactionInit" then [.initMols]
+  else []
+
+/-- Where the first individual with a value that does not belong to its solution sits (names as in the harness's
+own audit). -/
+def stalePlace (f : Nat → Int) (x : X) : String :=
+  if !allValidB f x.pm.stack.flatten then "stack"
+  else if !allValidB f x.pm.best.toList then "best"
+  else if !allValidB f x.pm.archive then "archive"
+  else if !allValidB f x.pbest then "pso-personal"
+  else if !allValidB f x.gbest.toList then "pso-global"
+  else if !allValidB f x.mols then "cro-molecule"
+  else "none"
+
 def outMatches (res : String) (after : X) : Out X → Bool
   | .ok x => res == "ok" && snapEq x after
   | .err x => res == "err" && snapEq x after
@@ -175,6 +202,22 @@ def comp (input implOut : Sexp) : Option Verdict := do
     | .list [.list [.atom "res", .atom res], ft, before, after] =>
       let (agree, stale, model) ← judgeRecord name (firstParamNat rest) res ft before after
       pure { agree, holds := !stale, cls := if stale then "stale" else "-", model }
+    -- a state used again for another instance: `(reinit S0 SI)` are the snapshots around the components' `init`
+    | .list [.list [.atom "res", .atom res], ft, before, after, .list [.atom "reinit", s0, si]] =>
+      let (agree, stale, model) ← judgeRecord name (firstParamNat rest) res ft before after
+      let tab ← ftab? ft
+      let f := fOf tab
+      let x0 ← snap? s0
+      let xi ← snap? si
+      let preName := match findTag "pre" rest with | some (.atom n :: _) => n | _ => ""
+      let initOut := memRun f x0 (initOpsOf preName ++ initOpsOf name)
+      let initAgree := match initOut with | .ok x => snapEq x xi | _ => false
+      let staleI := !allValidB f (allInds xi)
+      let place := if staleI then stalePlace f xi
+                   else match after with | .list [.atom "after", a] => (match snap? a with | some xa => stalePlace f xa | none => "none") | _ => "none"
+      pure { agree := agree && initAgree, holds := !stale && !staleI,
+             cls := if stale || staleI then "stale-" ++ place else "-",
+             model := .list [.list [.atom "init", ofOutX initOut], model] }
     | _ => none
   | _ => none
 
@@ -184,16 +227,37 @@ def leafRecord : Sexp → Option (String × Bool × Bool)
     pure (name, agree, stale)
   | _ => none
 
-def run (_input implOut : Sexp) : Option Verdict := do
+/-- One audited run: `(agree, no stale value, place of the first stale value, model)`. -/
+def runRecord (implOut : Sexp) : Option (Bool × Bool × String × Sexp) := do
   match implOut with
   | .list [.list [.atom "out", _], .list [.atom "steps", _], .list [.atom "checked", _], .list [.atom "evaluated", _],
            .list [.atom "stale", st], .list (.atom "leaves" :: ls)] =>
     let rs ← ls.mapM leafRecord
     let leavesOk := rs.all fun r => r.2.1
     let noStale := (match st with | .atom "none" => true | _ => false) && rs.all fun r => !r.2.2
+    let place := match st with
+      | .list (.atom p :: _) => p
+      | _ => "leaf"
     let model := Sexp.list [.list [.atom "stale", .atom "none"],
                             .list (.atom "mismatch" :: (rs.filter (!·.2.1)).map fun r => .atom r.1)]
-    pure { agree := leavesOk, holds := noStale, cls := if noStale then "-" else "stale", model }
+    pure (leavesOk, noStale, place, model)
+  | _ => none
+
+def run (_input implOut : Sexp) : Option Verdict := do
+  let (agree, noStale, _, model) ← runRecord implOut
+  pure { agree, holds := noStale, cls := if noStale then "-" else "stale", model }
+
+/-- Consecutive runs on one state (`(rerun …)`): every run is judged like a single run, against the objective
+function of its own instance; the class names the memory that holds the first stale value. -/
+def rerun (_input implOut : Sexp) : Option Verdict := do
+  match implOut with
+  | .list [.list (.atom "runs" :: rs)] =>
+    let recs ← rs.mapM runRecord
+    let agree := recs.all fun r => r.1
+    let holds := recs.all fun r => r.2.1
+    let place := match recs.find? (fun r => !r.2.1) with | some r => r.2.2.1 | none => "-"
+    pure { agree, holds, cls := if holds then "-" else "stale-" ++ place,
+           model := .list (.atom "runs" :: recs.map fun r => r.2.2.2) }
   | _ => none
 
 /-! API histories, `best_individual` tie-agnostic. -/
